@@ -20,6 +20,8 @@ pub const TRANSPARENT: &[(&str, &str, bool)] = &[
     ("agg_vcov", " src=owned mp=1", true), ("agg_vcorr_pearson", " src=owned mp=1", true),
     ("vquantile", " q=1/4 m=linear", false), ("vquantile", " q=3/4 m=midpoint", false), ("vmedian", "", false),
     ("vpercentile_of", " s=1 m=rank", false), ("vpercentile_of", " s=2 m=weak", false),
+    // per-element ranks: the ranks of the valid elements (nulls dropped) must not change
+    ("vrank", " o=f64 pct=0 rev=0", false), ("vrank", " o=f64 pct=1 rev=0", false), ("vrank", " o=of64 pct=1 rev=1", false),
 ];
 
 /// interleave: mask char '0' takes the next base element (pair), 'x' inserts a null into the first
@@ -78,6 +80,15 @@ pub fn compare(r: &Req, imp: &str, model: &str) -> Option<bool> {
     let m = model.split(';').next().unwrap_or("");
     let mode = crate::cmp::Mode::of("f64");
     let tols = [1e-7f64; 4];
+    // position-wise results (vrank): compare the entries of the valid elements only
+    let drop_nulls = |x: &str| -> String {
+        if r.s("f") != "vrank" { return x.to_string(); }
+        let v: Vec<&str> = crate::proto::split_list(x).into_iter().filter(|t| *t != "_").collect();
+        if v.is_empty() { "[]".into() } else { v.join(",") }
+    };
+    let (a, b, m) = (drop_nulls(a), drop_nulls(b), drop_nulls(m));
+    let (a, b, m) = (a.as_str(), b.as_str(), m.as_str());
+    let tols = [1e-7f64; 64];
     let eq = |x: &str| crate::cmp::line_eq_tols(&x.replace('|', ";"), &m.replace('|', ";"), mode, Some(&tols));
     Some(eq(a) && eq(b))
 }
@@ -155,5 +166,5 @@ pub fn generate(tier: &str, rng: &mut Rng) -> (Vec<String>, bool) {
 }
 
 pub fn rule(tier: &str) -> String {
-    format!("every null-aware catalogued entry point on the same logical series under the four encodings (f64 NaN, f32 NaN, Option<f64> None, Option<i32> None) x four output element types (f64, f32, Option<f64>, Option<i32>): all 16 cells must equal the single model result; exhaustive over {{null,0,1,3}}^len, len <= {}, windows {{1,2,3,len+1}}, min_periods {{omitted,1,w}}, plus random integral series to length 45; null-insertion transparency: for 17 aggregation / order-statistic configurations (count_valid, vsum, vmean, vmax, vmin, vmean_var, vvar, vstd, vskew, vkurt, vcov, vcorr_pearson, vquantile x2, vmedian, vpercentile_of x2) every base series over {{null,0,1,3}} up to length 4 with 7-9 insertion masks (leading, trailing, interleaved, blocks; pairwise patterns for two-series functions): result on the base series and on the series with nulls inserted both compared with the model. non-trivial = len >= 2 with a non-null output.", if tier == "thorough" { 5 } else { 3 })
+    format!("every null-aware catalogued entry point on the same logical series under the four encodings (f64 NaN, f32 NaN, Option<f64> None, Option<i32> None) x four output element types (f64, f32, Option<f64>, Option<i32>): all 16 cells must equal the single model result; exhaustive over {{null,0,1,3}}^len, len <= {}, windows {{1,2,3,len+1}}, min_periods {{omitted,1,w}}, plus random integral series to length 45; null-insertion transparency: for 20 aggregation / order-statistic configurations (vrank x3 on the valid entries, count_valid, vsum, vmean, vmax, vmin, vmean_var, vvar, vstd, vskew, vkurt, vcov, vcorr_pearson, vquantile x2, vmedian, vpercentile_of x2) every base series over {{null,0,1,3}} up to length 4 with 7-9 insertion masks (leading, trailing, interleaved, blocks; pairwise patterns for two-series functions): result on the base series and on the series with nulls inserted both compared with the model. non-trivial = len >= 2 with a non-null output.", if tier == "thorough" { 5 } else { 3 })
 }
